@@ -213,7 +213,7 @@ def base_specs(draw, tier):
         return {"V": core["V"] + extra, "T": list(terms), "R": R, "S": core["S"]}
     if kind == 9:
         return draw(GC.unit_chain_specs(terms=terms))
-    spec = draw(GC.cfg_specs(max_vars=4 if tier == "quick" else 5, terms=terms, simple=draw(st.integers(0, 3)) > 0, max_len=4))
+    spec = draw(GC.cfg_specs(max_vars=4 if tier == "quick" else 5, terms=terms, simple=draw(st.integers(0, 3)) > 0, max_len=6 if draw(st.integers(0, 3)) == 0 else 4))
     if kind <= 2 and len(spec["V"]) >= 2:
         # rules sharing a right-hand side under several variables + a unit cycle
         A, B = spec["V"][0], spec["V"][1]
